@@ -67,7 +67,7 @@ func c05Case(r *mon.Run, t *mon.Tally, wl string, idx int, expr string, hdocs []
 
 func c05(r *mon.Run) {
 	r.Rule = "byte strings as expressions: (1) every string of <= 2 bytes and every 3-byte string over a 40-byte alphabet of delimiters, escapes and UTF-8 lead/continuation bytes; (2) seeded soups of hostile lexemes (identifiers followed by boundary code points and invalid UTF-8, extreme and malformed numbers, unterminated and escaped delimiters); " +
-		"(3) every recursive construct nested 1..~32k deep (up to 64 KiB); (4) grammar-generated trees of all fragments with hostile leaves, and 21 functions on 43 edge strings (truncated numbers, lone signs, huge digit runs, invalid UTF-8, NUL, 70 kB strings); (4b) every function x 16 call shapes x 21 element patterns (homogeneous, one odd element first / middle / last, inconsistent by-expression keys, all types mixed) x 22 array lengths on and around internal thresholds (…63, 64, 65…1000; thorough to 10000); (5) the repository's fuzz corpus (642 files go test never runs), the compliance expressions and seeded mutations of both. Every expression that compiles is searched on 8 documents (null, scalars, invalid UTF-8, heterogeneous, nested 200 deep, 10^4-element array with long astral strings) through Search and Compile+Search under recover(); " +
+		"(3) every recursive construct nested 1..~32k deep (up to 64 KiB); (4) grammar-generated trees of all fragments with hostile leaves, and 21 functions on 43 edge strings (truncated numbers, lone signs, huge digit runs, invalid UTF-8, NUL, 70 kB strings); (4b) every function x 16 call shapes x 23 element patterns (homogeneous, one odd element first / middle / last, inconsistent by-expression keys, all types mixed) x 22 array lengths on and around internal thresholds (…63, 64, 65…1000; thorough to 10000); (5) the repository's fuzz corpus (642 files go test never runs), the compliance expressions and seeded mutations of both. Every expression that compiles is searched on 8 documents (null, scalars, invalid UTF-8, heterogeneous, nested 200 deep, 10^4-element array with long astral strings) through Search and Compile+Search under recover(); " +
 		"a stalled case is nominated after 90 s and confirmed in a fresh single-case process (120 s); serial metering of allocation against a size-derived bound. Non-trivial = distinct inputs that compiled (reached the interpreter)."
 	r.Floor = 2000
 	r.Assumptions = []string{"recover() observes every run-time panic; fatal errors and hangs are observed by the parent process (exit status, stall alarm, watchdog)",
